@@ -184,6 +184,20 @@ def run_case(case, ctx, st):
         if not cond:
             bad.append((what, obs))
 
+    def mmd_slack(dist_, ovo_, P_, A_):
+        """an MMD that is the square root of round-off (every row predicted alike: all features switched off by a strong
+        penalty) moves by sqrt(eps * |kernel|) between two evaluations whose kernels differ in the last bit"""
+        if dist_ != "mmd" or A_ is None:
+            return 0.0
+        from . import _gem
+
+        class _Gm:
+            pass
+        gm = _Gm()
+        gm.ovo = ovo_
+        t = 2 * _gem.mmd_tolerance(gm, np.clip(np.asarray(P_, dtype=float), 1e-12, 1.0), np.asarray(A_, dtype=float))
+        return float(t) if np.isfinite(t) else 0.0
+
     def slack32(dist_, ovo_, P_, A_, val_):
         """score(X) given single-precision data: scikit-learn evaluates the kernel / metric in single precision, so the
         affinity (hence the score) carries float32 round-off - relative 1e-5 of the affinity's magnitude, amplified by the
@@ -278,7 +292,7 @@ def run_case(case, ctx, st):
                     if not (dist == "tv" and ovo and K == 1):
                         val = float(np.asarray(obj(P, A)).reshape(-1)[0])
                         ctx.count("score_vs_documented_class")
-                        need(abs(sc - val) <= 1e-9 * max(1.0, abs(val)) + slack32(dist, ovo, P, A, val), "score-differs-from-documented-gemini",
+                        need(abs(sc - val) <= 1e-9 * max(1.0, abs(val)) + slack32(dist, ovo, P, A, val) + mmd_slack(dist, ovo, P, A), "score-differs-from-documented-gemini",
                              {"score": sc, "expected": val})
             fp = gen.build_estimator(name, params).fit_predict(Xin, y)
             need(np.array_equal(np.asarray(fp), labels), "fit_predict-differs-from-fit", {"fit_predict": fp, "labels_": labels})
@@ -302,7 +316,7 @@ def run_case(case, ctx, st):
                     val2 = float(np.asarray(obj2(P2, A2)).reshape(-1)[0])
                     sc2 = est.score(X2)
                     ctx.count("score_fresh_data_checked")
-                    need(abs(sc2 - val2) <= 1e-9 * max(1.0, abs(val2)), "score-fresh-data-differs-from-documented-gemini",
+                    need(abs(sc2 - val2) <= 1e-9 * max(1.0, abs(val2)) + mmd_slack(dist, ovo, P2, A2), "score-fresh-data-differs-from-documented-gemini",
                          {"score": sc2, "expected": val2})
         # the array the model was fitted on, refreshed in place (a reused buffer): score speaks about the data it is
         # given now
@@ -319,7 +333,7 @@ def run_case(case, ctx, st):
                 val3 = float(np.asarray(obj3(P3, gen.expected_affinity(spec, np.array(X, copy=True), None))).reshape(-1)[0])
                 sc3 = est.score(X)
                 ctx.count("score_after_inplace_refresh_checked")
-                need(abs(sc3 - val3) <= 1e-9 * max(1.0, abs(val3)), "score-after-inplace-refresh-differs-from-documented-gemini",
+                need(abs(sc3 - val3) <= 1e-9 * max(1.0, abs(val3)) + mmd_slack(dist, ovo, P3, gen.expected_affinity(spec, np.array(X, copy=True), None)), "score-after-inplace-refresh-differs-from-documented-gemini",
                      {"score": sc3, "expected": val3})
     except Exception as e:
         ctx.violation("post-fit-api", f"post-fit-call-raises/{name}/{type(e).__name__}@{where(e)}",
